@@ -574,6 +574,76 @@ def rule_context_line(rep):
         )
 
 
+def rule_zero_is_a_position(rep):
+    with rep.rule(
+        "R10.zero-position",
+        "position 0 is a position: no test in the location / error code treats a start position "
+        "(or a head position) as absent because it is falsy; recogniser call protocol agrees between "
+        "the scanner and the error scan",
+    ) as r:
+        repo = rep.repo
+        n_tests = 0
+        quals = [f for f in repo.all_funcs() if f.module.name in ("parglare.common", "parglare.exceptions")]
+        quals += [repo.func(q) for q in (
+            "parglare.parser.Parser._create_error", "parglare.parser.Parser._get_all_possible_tokens_ahead",
+            "parglare.glr.GLRParser._enter_error_reporting", "parglare.glr.GLRParser._finish_error_reporting",
+        )]
+
+        def truthy_uses(fn):
+            """expressions evaluated for truth: if/while/ifexp tests, operands of and/or/not"""
+            out = []
+            for n in walk_no_nested(fn.node):
+                if isinstance(n, (ast.If, ast.While, ast.IfExp)):
+                    out.append(n.test)
+                elif isinstance(n, ast.BoolOp):
+                    out.extend(n.values)
+                elif isinstance(n, ast.UnaryOp) and isinstance(n.op, ast.Not):
+                    out.append(n.operand)
+            flat = []
+            for e in out:
+                while isinstance(e, ast.UnaryOp) and isinstance(e.op, ast.Not):
+                    e = e.operand
+                if isinstance(e, ast.BoolOp):
+                    continue
+                flat.append(e)
+            return flat
+
+        for fn in quals:
+            for e in truthy_uses(fn):
+                t = unparse(e)
+                if re.fullmatch(r"(\w+\.)*(start_position|position)", t):
+                    n_tests += 1
+                    r.violation(
+                        f"{fn.qual_in_module}:truthiness of {t}",
+                        f"{fn.qual_in_module} tests `{t}` for truth: position 0 (the empty input, an error at the first "
+                        "token) is treated as 'no position' -- line and column of such an error are not computed and "
+                        "the error renders as <Unknown location>",
+                        node=e,
+                    )
+        if not n_tests:
+            r.ok("no start/head position is tested for truth in the location and error code")
+        # the 3-argument recogniser protocol: (context of the head, input, position) at both scan sites
+        sites = 0
+        for q in ("parglare.parser.Parser._token_recognition", "parglare.parser.Parser._get_all_possible_tokens_ahead"):
+            fn = repo.func(q)
+            ctx = fn.params[1]
+            calls = [c for c in walk_no_nested(fn.node) if isinstance(c, ast.Call) and isinstance(c.func, ast.Attribute) and c.func.attr == "recognizer"]
+            two = [c for c in calls if len(c.args) == 2]
+            three = [c for c in calls if len(c.args) == 3]
+            r.need(len(two) == 1 and len(three) == 1, f"{q}: the two recogniser call forms were not found")
+            sites += 1
+            r.check(
+                is_name(three[0].args[0], ctx) and [unparse(a) for a in three[0].args[1:]] == [unparse(a) for a in two[0].args],
+                f"{fn.name}: context form = ({ctx}, same input, same position)",
+                f"{fn.qual_in_module}:recognizer-protocol",
+                f"{fn.qual_in_module} calls a context-taking recogniser as `{unparse(three[0])[:80]}`; needed "
+                f"({ctx}, {', '.join(unparse(a) for a in two[0].args)}): the recogniser gets another object than the "
+                "parsing head (reading the head's attributes raises AttributeError while an error is being built)",
+                node=three[0],
+            )
+        r.floor("recogniser call sites", sites, 2)
+
+
 def check(rep):
     rep.explanation = (
         "C10 (partial): exception-flow analysis over the call graph of each parse(): every raise "
@@ -590,6 +660,7 @@ def check(rep):
     rule_render(rep)
     rule_eof(rep)
     rule_context_line(rep)
+    rule_zero_is_a_position(rep)
     from .C02 import rule_all_parents, rule_link_key, rule_link_no_drop, rule_revisit
 
     # symbols_expected is computed by running the GLR reducer on the farthest heads: every rule that makes
